@@ -129,6 +129,12 @@ class C08(Prop):
             return case['_hash']
         return G.build_impl(case)
 
+    def project(self, case, out):
+        # the byte-for-byte comparison is the one across child interpreters (extra); against the Lean model the
+        # code of the files is compared
+        from harness.common import code_projection
+        return code_projection(out) if case.get('op') == 'build' else out
+
     def shape(self, case, impl_out):
         if case['op'] != 'build':
             return canon(case)[:200]
@@ -168,8 +174,11 @@ class C08(Prop):
                     continue
                 disagreements.append({'case': c, 'impl': per_child[0], 'model': m, 'failed': [], 'noshrink': True})
                 continue
-            msig = [[f['name'], hashlib.sha256(f['contents'].encode('utf-8')).hexdigest()] for f in m['ok']['files']]
-            isig = [[f[0], f[1]] for f in per_child[0].get('files', [])]
+            # the children (hash seeds, orders, working directories) are compared byte for byte above; the Lean model is
+            # an extra witness, compared on the code of the files (a reworded comment in the generator is no deviation)
+            from harness.common import code_of
+            msig = [[f['name'], hashlib.sha256('\n'.join(code_of(f['contents'])).encode('utf-8')).hexdigest()] for f in m['ok']['files']]
+            isig = [[f[0], f[3]] if len(f) > 3 else [f[0], f[1]] for f in per_child[0].get('files', [])]
             if msig != isig:
                 disagreements.append({'case': c, 'impl': per_child[0], 'model': 'sha256 of model files differs', 'failed': [], 'noshrink': True})
             shapes.append(canon(['children', i]))
